@@ -460,6 +460,10 @@ func (vc *FuncVC) Run() (err error) {
 		for _, r := range vc.C.Requires {
 			vc.assume(vc.evalBool(env, r))
 		}
+		for _, r := range vc.C.Assumes {
+			vc.assume(vc.evalBool(env, r))
+			vc.note("assumed at entry (invariant established elsewhere, not asked of callers): %s", truncate(r.Src, 120))
+		}
 		// lemmas this contract relies on: proved separately (check.go), assumed here
 		for _, name := range vc.C.Uses {
 			found := false
